@@ -12,7 +12,7 @@
    the step-level theorems are stated for an arbitrary adequate window. *)
 From Coq Require Import ZArith QArith Qround List Bool Lia Lqa Sorted Permutation.
 From LMBase Require Import Res ListX.
-From LMTfm Require Import TfmNum TfmModel TfmSpec TfmProofs TfmScore TfmDist TfmPerm TfmMain TfmRun TfmTotal TfmLink TfmClause1 TfmAdequate TfmCheck.
+From LMTfm Require Import TfmNum TfmModel TfmSpec TfmProofs TfmScore TfmDist TfmPerm TfmMain TfmRun TfmTotal TfmLink TfmClause1 TfmAdequate TfmCheck TfmConv.
 Import ListNotations.
 Open Scope Q_scope.
 
@@ -191,6 +191,11 @@ Theorem C13_check_sound : forall tol m rows p g t,
    T rows (q t + d) <= q p * q tol /\
    (forall u, below_max rows (q t - d) u -> q p <= T rows (u - d) * q tol)).
 Proof. exact c13_check_iff. Qed.
+
+(* the convolution reference used for wide motifs gives the same verdict as the enumeration *)
+Theorem C13_check_conv : forall tol m rows p g t,
+  c13_check tol m (conv_dy rows) p g t = c13_check tol m (enum_dy rows) p g t.
+Proof. exact c13_check_conv. Qed.
 
 (* ---------- statement pins ---------- *)
 Check C13_score_step_bounds : forall rows perm bg K g p win it,
